@@ -815,6 +815,35 @@ class SymEnv:
         self._sample(name, t, 'unknown', ms)
         return None
 
+    def global_claim(self, name, term, assumptions=()):
+        """validity of a closed formula (no path condition): used after exploration, e.g. for sums over weighted paths"""
+        self.stats.obligations += 1
+        s = z3.Solver()
+        s.set("timeout", self.timeout_ms)
+        for a in assumptions:
+            s.add(a)
+        s.add(z3.Not(term))
+        t0 = time.perf_counter()
+        r = s.check()
+        ms = (time.perf_counter() - t0) * 1000
+        self.stats.solver_s += ms / 1000
+        self.stats.queries += 1
+        self.claim_ms[name] = self.claim_ms.get(name, 0.0) + ms
+        verdict = {'unsat': 'discharged', 'sat': 'refuted'}.get(str(r), 'unknown')
+        if len(self.samples) < self.sample_limit + 2 and not any(x['obligation'] == name for x in self.samples):
+            self.samples.append({'obligation': name, 'path_decisions': '(closed formula over all weighted paths)',
+                                 'path_condition_size': len(assumptions), 'claim_smt': _short(term, 600),
+                                 'verdict': verdict, 'ms': round(ms, 2)})
+        if r == z3.unsat:
+            self.stats.discharged += 1
+            return True, None
+        if r == z3.sat:
+            self.stats.refuted += 1
+            return False, s.model()
+        self.stats.inconclusive += 1
+        self.inconclusive.append((name, _short(term)))
+        return None, None
+
     def canary(self, name, cond):
         """a deliberately wrong claim: must be refuted on at least one path (vacuity / oracle-strength guard)"""
         if self.canary_seen.get(name):
@@ -969,7 +998,13 @@ class ConcEnv:
             v = 0
         else:
             c = z3.Int(name) if sort == 'int' else z3.Real(name)
-            v = z3_value_to_py(self.model.eval(c, model_completion=True))
+            if self.model[c] is None:
+                # don't-care for the solver: give every such symbol its own value, so that "is literally the same
+                # stored value" checks keep their meaning in the concrete run
+                self._dc = getattr(self, '_dc', 0) + 1
+                v = 100 + self._dc if sort == 'int' else Fraction(200 + 3 * self._dc, 2)
+            else:
+                v = z3_value_to_py(self.model.eval(c, model_completion=True))
         tab[name] = str(v) if isinstance(v, Fraction) else v
         return v
 
